@@ -1,0 +1,67 @@
+//go:build verif
+
+// Hand-written contracts of the signing package (the routing / acceptance /
+// update contracts are generated: zz_contracts_proto_verif.go).
+
+package signing
+
+//@ func padToLengthBytesInPlace
+//@   props C01 C06
+//@   requires length <= 1048576
+//@   ensures [C01.fixed-width-left-padding] len(src) >= length ==> result == src
+//@   ensures [C01.fixed-width-left-padding] len(src) < length ==> (len(result) == length && bytes(result) == cat(zeros(length - len(src)), old(bytes(src))))
+//@   ensures len(src) < length ==> fresh(result)
+//@   loop 0 invariant 0 <= i && i <= length - oriLen && len(src) == oriLen + i
+//@   loop 0 invariant bytes(src) == cat(zeros(i), old(bytes(src)))
+//@   loop 0 invariant i > 0 ==> fresh(src)
+
+//@ func (*SignRound9Message).UnmarshalS
+//@   props C01 C06
+//@   requires m != nil
+//@   ensures result != nil && fresh(result) && val(result) == beint(bytes(m.S)) && val(result) >= 0
+
+// finalize.go: the only place a signature leaves the party. Whatever the other
+// rounds did, a value is sent on the end channel only after it verified under
+// the group public key this party holds, and it is in canonical form.
+//@ define r9slot(m) = (!isnil(m) && istype(msgcontent(m), "*ecdsa/signing.SignRound9Message") && cast(msgcontent(m), "*ecdsa/signing.SignRound9Message") != nil)
+//@ func (*finalization).Start
+//@   props C01 C06
+//@   requires round != nil && round.round9 != nil && round.round9.round8 != nil && round.round9.round8.round7 != nil && round.round9.round8.round7.round6 != nil && round.round9.round8.round7.round6.round5 != nil && round.round9.round8.round7.round6.round5.round4 != nil && round.round9.round8.round7.round6.round5.round4.round3 != nil && round.round9.round8.round7.round6.round5.round4.round3.round2 != nil && round.round9.round8.round7.round6.round5.round4.round3.round2.round1 != nil && round.round9.round8.round7.round6.round5.round4.round3.round2.round1.base != nil
+//@   requires wfParams(round.Parameters) && issecp(round.Parameters.ec) && wfIDs(round.Parameters.parties.partyIDs)
+//@   requires round.temp != nil && round.data != nil && round.key != nil && round.end != nil
+//@   requires round.temp.si != nil && round.temp.rx != nil && round.temp.ry != nil && round.temp.m != nil && 0 <= val(round.temp.si) && 0 <= val(round.temp.ry) && 0 <= val(round.temp.m)
+//@   requires [own-share-reduced] val(round.temp.si) < curveN(round.Parameters.ec)
+//@   requires [rx-is-a-field-element] 0 <= val(round.temp.rx) && val(round.temp.rx) < pow2(256)
+//@   requires [one-slot-per-committee-member] len(round.ok) == len(round.Parameters.parties.partyIDs) && len(round.temp.signRound9Messages) == len(round.Parameters.parties.partyIDs)
+//@   requires [round-9-complete] forall j in 0..len(round.temp.signRound9Messages) :: (j != round.Parameters.partyID.Index ==> r9slot(round.temp.signRound9Messages[j]))
+//@   requires [group-key-wellformed] round.key.ECDSAPub != nil && wfPoint(round.key.ECDSAPub)
+//@   requires [requested-length-fits-the-digest] round.temp.fullBytesLen == 0 || (0 < round.temp.fullBytesLen && round.temp.fullBytesLen <= 1048576 && blen(be(val(round.temp.m))) <= round.temp.fullBytesLen)
+//@   modifies round.number, round.started, round.ok[*], val(round.temp.si), round.data.R, round.data.S, round.data.Signature, round.data.SignatureRecovery, round.data.M, sent(round.end)
+//@   ensures [C01.nothing-emitted-on-error] result != nil ==> sent(round.end) == old(sent(round.end))
+//@   ensures [C01.emitted-once] result == nil ==> sent(round.end) == old(sent(round.end)) + 1
+//@   ensures [C01.emitted-only-after-self-verification] result == nil ==> ecdsaverify(round.Parameters.ec, px(round.key.ECDSAPub), py(round.key.ECDSAPub), bytes(round.data.M), val(round.temp.rx), beint(bytes(round.data.S)))
+//@   ensures [C01.low-S] result == nil ==> 2 * beint(bytes(round.data.S)) <= curveN(round.Parameters.ec)
+//@   ensures [C01.fixed-width-R] result == nil ==> len(round.data.R) == 32
+//@   ensures [C01.fixed-width-S] result == nil ==> len(round.data.S) == 32
+//@   ensures [C01.signature-is-R-then-S] result == nil ==> (len(round.data.Signature) == 64 && bytes(round.data.Signature) == cat(bytes(round.data.R), bytes(round.data.S)))
+//@   ensures [C01.R-is-rx] result == nil ==> beint(bytes(round.data.R)) == val(round.temp.rx)
+//@   ensures [C01.recovery-byte-in-range] result == nil ==> (len(round.data.SignatureRecovery) == 1 && 0 <= round.data.SignatureRecovery[0] && round.data.SignatureRecovery[0] <= 3)
+//@   ensures [C01.message-echo] result == nil ==> ((round.temp.fullBytesLen == 0 ==> bytes(round.data.M) == be(val(round.temp.m))) && (round.temp.fullBytesLen != 0 ==> (len(round.data.M) == round.temp.fullBytesLen && bytes(round.data.M) == cat(zeros(round.temp.fullBytesLen - blen(be(val(round.temp.m)))), be(val(round.temp.m))))))
+//@   loop 0 invariant sumS != nil && 0 <= val(sumS) && val(sumS) < secpN && (sumS == round.temp.si || fresh(sumS)) && modN != nil && val(modN) == secpN && round.started
+//@   loop 0 invariant sent(round.end) == old(sent(round.end))
+
+//@ func (*base).getSSID
+//@   trusted session-id assembly (hash over public parameters); only used as an opaque value here
+//@   props C06
+//@   requires round != nil
+
+// round_1.go Start: the digest guard comes before anything is sent.
+//@ func (*round1).Start
+//@   props C01
+//@   requires round != nil && round.base != nil
+//@   requires wfParams(round.Parameters) && okCurve(round.Parameters.ec) && round.temp != nil && round.key != nil && round.out != nil && round.temp.m != nil
+//@   skip pre nil idx slice tassert frame
+//@   note assumed, not checked: callee preconditions on the key material (Paillier keys, ring-Pedersen parameters, slot arrays) and the frame; only the digest guard and the send count are claimed
+//@   modifies *
+//@   ensures [C01.digest-not-below-the-order-is-refused-before-any-message-is-sent] val(old(round.temp.m)) >= curveN(old(round.Parameters.ec)) ==> (result != nil && sent(old(round.out)) == old(sent(round.out)))
+//@   ensures [C01.already-started-sends-nothing] old(round.started) ==> (result != nil && sent(old(round.out)) == old(sent(round.out)))
